@@ -237,8 +237,11 @@ impl Drop for Chunk {
             if self.data().ref_count.fetch_sub(1, atomic::Ordering::SeqCst) == 1 {
                 #[cfg(feature = "verif_hooks")]
                 {
+                    // Whatever value the counter holds once the last owner has decided to free the
+                    // chunk, nobody else may change it any more.
+                    let decided = self.data().ref_count.load(atomic::Ordering::SeqCst);
                     crate::verif_hooks::sched_point(crate::verif_hooks::Site::ChunkDropDealloc);
-                    if self.data().ref_count.load(atomic::Ordering::SeqCst) != 0 {
+                    if self.data().ref_count.load(atomic::Ordering::SeqCst) != decided {
                         crate::verif_hooks::chunk_error("chunk resurrected between last release and dealloc");
                     }
                     if crate::verif_hooks::poison_enabled() {
